@@ -7279,12 +7279,33 @@ fn eval_block(env: &mut Env, expr_value_is_used: bool, block: &Block) {
     }
 }
 
+/// Does this pending expression own a bindings block? `if`, `match`
+/// and `try` push their continuation in the
+/// `EvaluatedSubexpressions` state just before entering a block, and
+/// that continuation pops the block.
+fn pending_expr_owns_block(expr_state: &ExpressionState, expr: &Expression) -> bool {
+    matches!(expr_state, ExpressionState::EvaluatedSubexpressions)
+        && matches!(
+            expr.expr_,
+            Expression_::If(_, _, _) | Expression_::Match(_, _) | Expression_::Try(_, _, _)
+        )
+}
+
 fn eval_break(env: &mut Env, expr_value_is_used: bool) {
     // Pop all the currently evaluating expressions until we are no
     // longer inside the innermost loop.
     while let Some((expr_state, expr)) = env.current_frame_mut().exprs_to_eval.pop() {
         match &expr.expr_ {
             Expression_::While(_, _) => {
+                // We're exiting the loop body early, so pop its
+                // bindings block here.
+                if matches!(
+                    expr_state,
+                    ExpressionState::PartiallyEvaluated(BlockState::DoneRunBlock)
+                ) {
+                    env.current_frame_mut().bindings.pop_block();
+                }
+
                 env.current_frame_mut()
                     .exprs_to_eval
                     .push((ExpressionState::EvaluatedSubexpressions, Rc::clone(&expr)));
@@ -7310,10 +7331,7 @@ fn eval_break(env: &mut Env, expr_value_is_used: bool) {
                 // We're exiting a block that wasn't part of a loop
                 // (i.e. a match case or an if/else block), so we
                 // should pop the bindings block here too.
-                if matches!(
-                    expr_state,
-                    ExpressionState::PartiallyEvaluated(BlockState::DoneRunBlock)
-                ) {
+                if pending_expr_owns_block(&expr_state, &expr) {
                     env.current_frame_mut().bindings.pop_block();
                 }
 
@@ -7342,6 +7360,12 @@ fn eval_continue(env: &mut Env) {
 
             env.push_expr_to_eval(expr_state, expr);
             break;
+        }
+
+        // We're leaving a block inside the loop body (a match case
+        // or an if/else block), so pop its bindings block.
+        if pending_expr_owns_block(&expr_state, &expr) {
+            env.current_frame_mut().bindings.pop_block();
         }
     }
 }
